@@ -33,9 +33,17 @@ def _get_qr_fn(backend, stabilized=False):
         _reshape = ar.get_lib_fn(backend, "reshape")
         _abs = ar.get_lib_fn(backend, "abs")
 
+        _max = ar.get_lib_fn(backend, "max")
+
         def _sgn(x):
-            x0 = x == 0.0
-            return (x + x0) / (_abs(x) + x0)
+            a = _abs(x)
+            if ar.size(a) == 0:
+                return x
+            # treat entries that vanish relative to the largest one as zero:
+            # their phase is meaningless and x / abs(x) is not safe for
+            # subnormal values (rank deficient input of tiny magnitude)
+            x0 = a <= 1e-100 * _max(a)
+            return (x + x0) / (a + x0)
 
         def _qr(x):
             q, r = _qr_ubstab(x)
